@@ -140,6 +140,12 @@ func (e *Encoder) writeObject(data interface{}) (int, error) {
 	vv = UnpackPtrValue(vv)
 
 	typ := vv.Type()
+	for i := 0; i < typ.NumField(); i++ {
+		if typ.Field(i).PkgPath != "" {
+			// reflect cannot hand out the value of an unexported field (nor could a decoder set it)
+			return 0, newCodecError("writeObject", "unsupported unexported field %s of %v", typ.Field(i).Name, typ)
+		}
+	}
 	clsName, ok := e.nameMap[typ.Name()]
 	if !ok {
 		clsName = typ.Name()
